@@ -177,9 +177,9 @@ class SO2(SMPose):
             - if `x` contains a sequence, returns an `SO2` with a sequence of inverses
         """
         if len(self) == 1:
-            return SO2(self.A.T)
+            return SO2(self.A.T, check=False)
         else:
-            return SO2([x.T for x in self.A])
+            return SO2([x.T for x in self.A], check=False)
 
     @property
     def R(self):
